@@ -11,7 +11,8 @@ import NdnProofs.Lemmas.Lvs.CompileComplete
 Model: `Ndn.Lvs.sanityCheck` (`Checker._sanity_check`: version, `dfs`, `top_order`) and the iterative
 matcher `Ndn.Lvs.stepG`/`runG`/`matchIter` (`Checker._match`) over the binary model `Ndn.Lvs.Model`.
 Specification vocabulary (`NdnModel/Lvs/Sem.lean`): `Sane m` — the six rules of
-docs/src/lvs/binary-format.rst "Sanity Check" over the nodes reachable from the start node.
+docs/src/lvs/binary-format.rst "Sanity Check": the node-id rule for every node of the array, the others
+over the nodes reachable from the start node.
 
 The compiler is modelled too (`NdnModel/Lvs/{Ast,Compile}.lean`: `Ndn.Lvs.compile`, the passes of
 `compiler.py` as written, tied to the real `compile_lvs` on every run by comparing the node pools):
@@ -23,9 +24,9 @@ cycle); see `compile_sane_partial` for what is left.
 namespace Ndn.C13
 open Ndn Ndn.Lvs
 
-/-- **sanity_iff_documented.** The structural part of the loader's check (version and `dfs`) succeeds
-    exactly on the models that obey the documented sanity rules: supported version, node ids equal to
-    their index, edges to existing nodes, signer ids existing, exactly one of Value/Tag/UserFn per
+/-- **sanity_iff_documented.** The structural part of the loader's check (version, the loop over the node
+    array, `dfs`) succeeds exactly on the models that obey the documented sanity rules: supported version,
+    every node's id equal to its index (reachable or not), edges to existing nodes, signer ids existing, exactly one of Value/Tag/UserFn per
     option, every destination's parent is the source of the edge (and the root has no parent). -/
 theorem sanity_iff_documented (m : Model) : structCheck m = true ↔ Sane m :=
   ⟨sane_of_structCheck m, structCheck_of_sane m⟩
@@ -37,6 +38,14 @@ theorem modelError_iff_not_sane (m : Model) : sanityCheck m = .error .modelError
   cases hs : structCheck m
   · simp
   · cases hg : signOK m <;> simp
+
+/-- **load_rejects_bad_node_id.** "Every node's NodeId equals to its index in the array": a model with a node,
+    reachable from the start node or not, whose `NodeId` is absent or differs from its position is refused
+    with `LvsModelError` (before `top_order` can see the identifier). -/
+theorem load_rejects_bad_node_id (m : Model) (i : Nat) (node : Node) (hn : m.nodes[i]? = some node)
+    (hid : node.id ≠ some i) : sanityCheck m = .error .modelError := by
+  rw [modelError_iff_not_sane]
+  exact fun hs => hid (hs.ids i node hn)
 
 /-- An accepted model is sane. -/
 theorem accepted_sane (m : Model) (h : sanityCheck m = .ok ()) : Sane m := by
@@ -249,6 +258,13 @@ example : Sane Example.model := (sanity_iff_documented _).mp (by decide)
 /-- F10: a child of the root with a wrong parent is rejected by the repaired check … -/
 example : sanityCheck Example.badRootChild = .error .modelError := rejected_of _ (by decide)
 example : ¬ Sane Example.badRootChild := (modelError_iff_not_sane _).mp (rejected_of _ (by decide))
+/-- an unreachable node without `NodeId`, or with a wrong one, is rejected -/
+example : sanityCheck Example.extraNodeNoId = .error .modelError :=
+  load_rejects_bad_node_id _ 5 { id := none, parent := none, ruleNames := [], vEdges := [], pEdges := [], signCons := [] }
+    (by decide) (by decide)
+example : sanityCheck Example.extraNodeWrongId = .error .modelError :=
+  load_rejects_bad_node_id _ 5 { id := some 3, parent := none, ruleNames := [], vEdges := [], pEdges := [], signCons := [] }
+    (by decide) (by decide)
 /-- … and so is a root that records a parent (either would make `_match` loop forever) -/
 example : sanityCheck Example.badRootParent = .error .modelError := rejected_of _ (by decide)
 /-- on the corrupted model the search does not end within the bound (nor ever) -/
